@@ -68,17 +68,49 @@ class VLoop(asyncio.SelectorEventLoop):
         return False
 
 
+class BusyLoop(Exception):
+    """The code under test kept the CPU for longer than the watchdog allows without ever returning to the
+    event loop: a loop that never awaits (virtual time cannot pass, nobody else can run)."""
+
+
+def _watchdog_limits():
+    # concrete runs are fast: a few seconds of real time without returning means a spin; symbolic runs spend
+    # their time in the solver, so the limit there is only a last resort against a stuck worker
+    from . import core
+    return (90.0 if core.Ctx.cur is not None else 15.0)
+
+
 def run(coro_fn, *args):
     """Run `await coro_fn(loop, *args)` to completion on a fresh virtual loop.
-    Returns its result; raises Deadlock if it can never finish."""
+    Returns its result; raises Deadlock if it can never finish, BusyLoop if the code under test spins
+    without awaiting (SIGALRM watchdog on real time; main thread only)."""
+    import signal
+    import threading
     loop = VLoop()
     errors = []
     loop.set_exception_handler(lambda l, c: errors.append(c))
     asyncio.set_event_loop(loop)
+    limit = _watchdog_limits()
+    armed = threading.current_thread() is threading.main_thread()
+    symbolic = limit > 50
+
+    def on_alarm(signum, frame):
+        # keep firing: a broad `except Exception` in the spinning code must not swallow the only shot
+        signal.setitimer(signal.ITIMER_REAL, 1.0)
+        if symbolic:
+            from .core import EngineUnsupported
+            raise EngineUnsupported("watchdog: %.0f s of real time inside one event-loop run" % limit)
+        raise BusyLoop("no return to the event loop for %.0f s of real time" % limit)
+    if armed:
+        old_handler = signal.signal(signal.SIGALRM, on_alarm)
+        signal.setitimer(signal.ITIMER_REAL, limit)
     try:
         res = loop.run_until_complete(coro_fn(loop, *args))
         return res, errors
     finally:
+        if armed:
+            signal.setitimer(signal.ITIMER_REAL, 0)
+            signal.signal(signal.SIGALRM, old_handler)
         try:
             pending = [t for t in asyncio.all_tasks(loop) if not t.done()]
             for t in pending:
